@@ -37,18 +37,100 @@ package standard
 //@   ensures unheld(s.pendingAttestationsMutex) && unheld(s.subscriptionInfosMutex)
 
 //@
-//@ // ---- callers of the attestation job (C17 sweep of the whole package) ----
+//@ // ---- C03: one job per duty slot that has not passed, at the slot start plus the configured delay ----
+//@ // answers of the chain time service (its contracts in services/chaintime/standard say how they are computed)
+//@ spec func firstSlotOf(e phase0.Epoch) phase0.Slot
+//@ spec func nowSlot() phase0.Slot
+//@ // a duty is due for scheduling: its slot has not passed (and is strictly later than now on a start or restart)
+//@ spec func due(slot phase0.Slot, notCurrentSlot bool) bool = slot >= nowSlot() && (notCurrentSlot ==> slot > nowSlot())
+//@
 //@ func (*Service).scheduleAttestations
+//@   requires nolocks()
 //@   // assumed of go-eth2-client: a successful answer carries data without nil entries (its own range check dereferences each)
 //@   assumes call AttesterDuties#1 (resp, err): err == nil ==> resp != nil && (forall k int :: 0 <= k && k < len(resp.Data) ==> resp.Data[k] != nil)
+//@   assumes call FirstSlotOfEpoch (fs): fs == firstSlotOf(arg0)
+//@   assumes call CurrentSlot (cs): cs == nowSlot()
+//@   // duties outside the requested epoch are ignored: everything merged lies inside it
+//@   // (firstSlot and lastSlot are the function's own bounds: the first slot of the epoch and the slot before the
+//@   // first slot of the next epoch in the function's own 64-bit arithmetic, both taken from the chain time service)
+//@   at call MergeDuties#1: assert firstSlot == firstSlotOf(epoch)
+//@   at call MergeDuties#1: assert forall k int :: 0 <= k && k < len(arg1) ==> arg1[k] != nil && firstSlot <= arg1[k].Slot && arg1[k].Slot <= lastSlot
+//@   // a job is set up only for a duty that is due, and it is marked as pending first
+//@   at call go: assert arg0 != nil && due(arg0.slot, notCurrentSlot) && in(s.pendingAttestations, arg0.slot) && s.pendingAttestations[arg0.slot]
+//@   // exactly one per due duty: cnt[k] counts the jobs set up for the k-th merged duty
+//@   ghost cnt (Array Int Int) = empty
+//@   at call go: ghost cnt[rangeindex#3] = cnt[rangeindex#3] + 1
 //@   loop 1
 //@     invariant forall k int :: 0 <= k && k < len(attesterDuties) ==> attesterDuties[k] != nil
-//@     invariant forall k int :: 0 <= k && k < len(filteredDuties) ==> filteredDuties[k] != nil
+//@     invariant forall k int :: 0 <= k && k < len(filteredDuties) ==> filteredDuties[k] != nil && firstSlot <= filteredDuties[k].Slot && filteredDuties[k].Slot <= lastSlot
+//@   loop 2
+//@     invariant forall k int :: 0 <= k && k < len(duties) ==> duties[k] != nil && len(duties[k].committeeIndices) == len(duties[k].validatorIndices) && len(duties[k].validatorCommitteeIndices) == len(duties[k].validatorIndices)
+//@     invariant forall k int :: cnt[k] == 0
 //@   loop 3
+//@     invariant -1 <= rangeindex#3 && rangeindex#3 < len(duties)
 //@     invariant forall k int :: 0 <= k && k < len(duties) ==> duties[k] != nil
+//@     invariant forall k int {cnt[k]} :: 0 <= k && k <= rangeindex#3 && due(duties[k].slot, notCurrentSlot) ==> cnt[k] == 1
+//@     invariant forall k int {cnt[k]} :: 0 <= k && k <= rangeindex#3 && !due(duties[k].slot, notCurrentSlot) ==> cnt[k] == 0
+//@     invariant forall k int {cnt[k]} :: k > rangeindex#3 ==> cnt[k] == 0
+//@   // every merged duty was looked at (no path leaves the loop early) and got one job iff it is due
+//@   ensures calls(MergeDuties) == 1 ==> !inloop(3)
 //@
+//@ // the goroutine that sets up the job of one duty
 //@ func (*Service).scheduleAttestations$1
 //@   requires duty != nil
+//@   assumes call StartOfSlot (t): ns(t) == startOfSlotNs(arg0)
+//@   // timed at the slot start plus the configured delay, named after the slot
+//@   at call ScheduleJob#1: assert arg2 == sprintf("Attestations for slot %d", duty.slot)
+//@   at call ScheduleJob#1: assert ns(arg3) == startOfSlotNs(duty.slot) + s.maxAttestationDelay
+//@   ensures calls(ScheduleJob) == 1
 //@
 //@ func (*Service).scheduleAttestations$1$1
 //@   requires duty != nil
+//@
+//@ func (*Service).scheduleProposals
+//@   requires nolocks()
+//@   assumes call ProposerDuties#1 (resp, err): err == nil ==> resp != nil && (forall k int :: 0 <= k && k < len(resp.Data) ==> resp.Data[k] != nil)
+//@   assumes call FirstSlotOfEpoch (fs): fs == firstSlotOf(arg0)
+//@   assumes call CurrentSlot (cs): cs == nowSlot()
+//@   // a proposal is set up only for a duty of the requested epoch that is due, for the validator the node named
+//@   at call go: assert arg0 != nil && due(arg0.slot, notCurrentSlot) && firstSlot == firstSlotOf(epoch) && firstSlot <= arg0.slot && arg0.slot <= lastSlot
+//@   // exactly one per due duty
+//@   ghost cnt (Array Int Int) = empty
+//@   at call go: ghost cnt[rangeindex#2] = cnt[rangeindex#2] + 1
+//@   loop 1
+//@     invariant forall k int :: 0 <= k && k < len(proposerDuties) ==> proposerDuties[k] != nil
+//@     invariant forall k int :: 0 <= k && k < len(duties) ==> duties[k] != nil && firstSlot <= duties[k].slot && duties[k].slot <= lastSlot
+//@     invariant forall k int :: cnt[k] == 0
+//@   loop 2
+//@     invariant -1 <= rangeindex#2 && rangeindex#2 < len(duties)
+//@     invariant forall k int :: 0 <= k && k < len(duties) ==> duties[k] != nil && firstSlot <= duties[k].slot && duties[k].slot <= lastSlot
+//@     invariant forall k int {cnt[k]} :: 0 <= k && k <= rangeindex#2 && due(duties[k].slot, notCurrentSlot) ==> cnt[k] == 1
+//@     invariant forall k int {cnt[k]} :: 0 <= k && k <= rangeindex#2 && !due(duties[k].slot, notCurrentSlot) ==> cnt[k] == 0
+//@     invariant forall k int {cnt[k]} :: k > rangeindex#2 ==> cnt[k] == 0
+//@   ensures calls(ProposerDuties) == 1 ==> !inloop(2)
+//@
+//@ // the goroutine that prepares one proposal and sets up its jobs
+//@ func (*Service).scheduleProposals$1
+//@   requires duty != nil
+//@   assumes call StartOfSlot (t): ns(t) == startOfSlotNs(arg0)
+//@   // the early check runs at the slot start, the proposal itself at the slot start plus the configured delay
+//@   at call ScheduleJob#1: assert arg2 == sprintf("Early beacon block proposal for slot %d", duty.slot) && ns(arg3) == startOfSlotNs(duty.slot)
+//@   at call ScheduleJob#2: assert arg2 == sprintf("Beacon block proposal for slot %d", duty.slot) && ns(arg3) == startOfSlotNs(duty.slot) + s.maxProposalDelay
+//@   // the proposal job is set up whenever preparation succeeded
+//@   assumes call Prepare#1 (err): err == prepErr()
+//@   ensures prepErr() == nil ==> calls(ScheduleJob) >= 1
+//@ spec func prepErr() error
+//@
+//@ // ---- C03: the fork epoch from which sync committee duties are scheduled is the one the chain reports ----
+//@ spec func reportedAltairEpoch() phase0.Epoch
+//@ spec func reportedAltairErr() error
+//@ func fetchAltairForkEpoch
+//@   requires !isnil(specProvider)
+//@   assumes call Spec#1 (r, err): err == nil ==> r != nil
+//@   modifies nothing
+//@ func altairDetails
+//@   requires !isnil(specProvider)
+//@   assumes call fetchAltairForkEpoch#1 (e, err): e == reportedAltairEpoch() && err == reportedAltairErr()
+//@   ensures result0 ==> reportedAltairErr() == nil && result1 == reportedAltairEpoch()
+//@   ensures result0 <==> !isnil(syncCommitteeAggregator) && epochsPerSyncCommitteePeriod != 0 && reportedAltairErr() == nil
+//@   modifies nothing
